@@ -14,8 +14,9 @@
    How the signers are treated, side by side (no disagreement was found on the natural inputs):
      - empty string / empty list: Go tests `len(v) == 0` on the string (Signers_strlen, zero exactly for the empty list)
        and again `len(entSigners) == 0` after the split; the model tests `length = 0`.  The same.
-     - an entry that does not parse: the Go loop returns the (wrapped) error at the first BAD_ADDR entry; the model asks
-       that no entry is BAD_ADDR.  The same verdict, and the same error class wherever the bad entry stands.
+     - an entry that does not parse (BAD_ADDR, or the empty string EMPTY_ADDR as in "addr,"): the Go loop returns the
+       (wrapped) error at the first such entry; the model asks that every entry parses ([addr_parses]).  The same
+       verdict, and the same error class wherever the bad entry stands.
      - MinAccepts against the number of signers: Go compares `uint64(len(entSigners)) < p.MinAccepts` (unsigned, fix D4);
        the model compares MinAccepts <= length in Z.  uint64(len) = len for a length below 2^64, and MinAccepts is a
        uint64, so the two agree: in particular MinAccepts = 2^63 with one signer is refused by both (with the signed
@@ -50,15 +51,15 @@ Definition ent_params_err (p : go_Params) : Z :=
   if (Params_Denom p <? 0) && negb (Params_Denom p =? go_zero_denom) then 1 else enterprise_ErrInvalidParams.
 
 (* ---- the loop: `for _, a := range signers { if _, err := AccAddressFromBech32(a); err != nil { return err } }` ---- *)
-Definition no_bad_addr (l : list go_addr) : bool := forallb (fun a => negb (a =? BAD_ADDR)) l.
+Definition no_bad_addr (l : list go_addr) : bool := forallb addr_parses l.
 
 Lemma signers_loop {S R} (f : go_addr -> S -> outcome (loop_res S R)) (E : Z) :
-  (forall a s, f a s = if a =? BAD_ADDR then Err E else Ok (LCont s)) ->
+  (forall a s, f a s = if addr_parses a then Ok (LCont s) else Err E) ->
   forall l s, go_range f l s = if no_bad_addr l then Ok (LCont s) else Err E.
 Proof.
   intros Hf l. induction l as [|a r IH]; intros s; [reflexivity|].
   rewrite go_range_cons, Hf. unfold no_bad_addr. cbn [forallb].
-  destruct (a =? BAD_ADDR); cbn [obind negb andb]; [reflexivity|apply IH].
+  destruct (addr_parses a); cbn [obind andb]; [apply IH|reflexivity].
 Qed.
 
 Ltac pv_loop :=
@@ -66,7 +67,7 @@ Ltac pv_loop :=
   | |- context [go_range ?f ?l ?s] =>
       rewrite (signers_loop f enterprise_ErrInvalidParams)
         by (intros ? []; unfold map_err, ent_AccAddressFromBech32;
-            match goal with |- context [?a =? BAD_ADDR] => destruct (a =? BAD_ADDR) end; reflexivity)
+            match goal with |- context [addr_parses ?a] => destruct (addr_parses a) end; reflexivity)
   end.
 Ltac pv_norm :=
   cbv beta zeta; cbn [obind negb];
@@ -160,10 +161,10 @@ Example gen_ent_Params_Validate_neg_limit_refuted :
 Proof. vm_compute. auto. Qed.
 
 (* 2^64 signers, MinAccepts 1: uint64(len) = 0 < 1, refused by the generated code, accepted by the model *)
-Lemma no_bad_addr_repeat a n : a <> BAD_ADDR -> no_bad_addr (repeat a n) = true.
+Lemma no_bad_addr_repeat a n : a <> BAD_ADDR -> a <> EMPTY_ADDR -> no_bad_addr (repeat a n) = true.
 Proof.
-  intros H. induction n as [|n IH]; [reflexivity|]. unfold no_bad_addr in *. cbn [repeat forallb]. rewrite IH.
-  apply Z.eqb_neq in H. rewrite H. reflexivity.
+  intros H H'. induction n as [|n IH]; [reflexivity|]. unfold no_bad_addr in *. cbn [repeat forallb]. rewrite IH.
+  unfold addr_parses. apply Z.eqb_neq in H, H'. rewrite H, H'. reflexivity.
 Qed.
 
 Lemma gen_ent_Params_Validate_long_list (l : list go_addr) :
@@ -194,7 +195,7 @@ Proof.
   exists (mk_go_Params (repeat (5 : go_addr) n) 0 1 100).
   cbn [Params_MinAccepts Params_DecisionTimeLimit Params_EntSigners].
   split; [unfold two64; lia|]. split; [unfold two64; lia|]. split; [exact L|].
-  apply gen_ent_Params_Validate_long_list; [exact L|]. apply no_bad_addr_repeat. discriminate.
+  apply gen_ent_Params_Validate_long_list; [exact L|]. apply no_bad_addr_repeat; discriminate.
 Qed.
 
 (* the error classes are really met; the bad entry may stand anywhere *)
@@ -204,6 +205,14 @@ Example gen_ent_Params_Validate_err_classes :
   go_Params_Validate (mk_go_Params [] 0 1 100) = Err 30 /\                (* no signer *)
   go_Params_Validate (mk_go_Params [BAD_ADDR; 6] 0 1 100) = Err 30 /\
   go_Params_Validate (mk_go_Params [5; BAD_ADDR] 0 1 100) = Err 30.
+Proof. vm_compute. auto. Qed.
+
+(* an empty entry (the signer string "addr," splits into "addr" and ""): sdk.AccAddressFromBech32("") is an error, both
+   sides refuse *)
+Example gen_ent_Params_Validate_empty_entry :
+  go_Params_Validate (mk_go_Params [5; EMPTY_ADDR] 0 1 100) = Err 30 /\
+  go_Params_Validate (mk_go_Params [EMPTY_ADDR; 5] 0 1 100) = Err 30 /\
+  ent_params_valid (params_of_go (mk_go_Params [5; EMPTY_ADDR] 0 1 100)) = false.
 Proof. vm_compute. auto. Qed.
 
 Print Assumptions gen_ent_Params_Validate_exact.
